@@ -116,6 +116,16 @@ Proof. exact from_reader_ascii_written. Qed.
 Print Assumptions from_reader_written_binary.
 Print Assumptions from_reader_written_ascii.
 
+(* ---------------------------------------------------------------- termination of the MEDIT parsers *)
+
+(* every loop of the parsers runs on fuel = 1 + remaining bytes; it never runs out, on any input *)
+Theorem medit_parse_binary_terminates : forall s, parse_binary s <> FOutOfFuel.
+Proof. exact parse_binary_terminates. Qed.
+Theorem medit_parse_ascii_terminates : forall parse_f64 s, parse_ascii parse_f64 s <> FOutOfFuel.
+Proof. exact parse_ascii_terminates. Qed.
+Print Assumptions medit_parse_binary_terminates.
+Print Assumptions medit_parse_ascii_terminates.
+
 (* ---------------------------------------------------------------- the run-time checker *)
 
 (* Run/RunC19.v compares what the implementation read back with what it wrote through these
